@@ -92,6 +92,17 @@ CLAIMS = {
 PENDING_REASON = "check under construction in this build phase (static rules designed in DESIGN.md section 2); not claimed until its rule set is validated both ways"
 
 
+# clauses added in session 3 (rules R-C01-7, R-C06-8/9/10, R-C09-6, R-C10-6, R-C12 bound arithmetic, R-C16-6); appended to the level text
+EXTRA = {
+ "C01": " The cleaning pass forgets stopped-out torrents: every shard is pruned on every pass and the pruning closure drops a permitted torrent that is empty and solely owned.",
+ "C06": " io_uring send buffers: message header and length are set per reply (msg_name / msg_namelen of the reply's own sockaddr, iov_len = bytes written), a buffer is released on every completion, failed or not, and is marked busy and tagged with its index when handed out; receive completions are handled with the helper, family flag and re-arm entry of the socket they came from. mio: each socket is registered under its own token, a readiness event reads that socket, and the receive loop is only left on recv_from -> WouldBlock.",
+ "C09": " Aged-out expectations are pruned by retain(valid(now)) over every entry of expecting_answers in the cleaning pass (swap_remove reorders them, so position is not age).",
+ "C10": " Every cleaning pass with a clock sample runs the per-family cleaner of both self.ipv4 and self.ipv6 in all three trackers, whatever the configuration.",
+ "C12": " Overflow assertions whose operands are statically bounded (constants, std collection lengths, zero-extended narrower unsigned values) are discharged by bound arithmetic and need no table line; a reviewed site that moved to another function of the same crate is matched against the line it left.",
+ "C16": " Each request is parsed from its own bytes: the receive window restarts at request_buffer[0..] for every request, grows by exactly the bytes read, and the parser is given exactly that window.",
+}
+
+
 def main():
     ids = [json.loads(l)["id"] for l in open(os.path.join(VERIF, "properties.jsonl"))]
     na_path = os.path.join(HERE, "not_applicable.json")
@@ -108,7 +119,7 @@ def main():
                 "evidence_file": "/verif/evidence/%s.json" % pid,
                 "replay_cmd_template": "python3 /verif/aqv/check.py --property %s --replay {path}" % pid,
                 "engine": "aqv",
-                "level_claimed": {"category": mod.PROP.level, "text": text, "design_ref": ref},
+                "level_claimed": {"category": mod.PROP.level, "text": text + EXTRA.get(pid, ""), "design_ref": ref},
                 "level_note": note,
                 "technique": tech,
             })
